@@ -2124,7 +2124,7 @@ def gen_opt_case(rng: common.Rng):
     return None
 
 
-OPT_TIMEOUT = 90  # seconds for the three scenarios of one optimisation case (normally < 10 s)
+OPT_TIMEOUT = 60  # seconds for the three scenarios of one optimisation case (normally < 10 s)
 
 
 def optimise_one(case, settings) -> dict[str, Any]:
